@@ -88,6 +88,26 @@ def env_matrix(rng, n):
 # ------------------------------------------------------------------ histories
 
 
+# earlier builds differ from the probe in all sorts of options, so that anything that one
+# build leaves behind for the next (a class-level default, a memo, a module flag) shows
+SWARM = [
+    {"refine_methods": ["integrate+newton"]}, {"refine_methods": ["line", "integrate"]},
+    {"refine_methods": ["newton", "integrate+newton", "integrate"]},
+    {"refine_width": 1.0e-3}, {"refine_atol": 1.0e-10}, {"finecontour_atol": 1.0e-10},
+    {"finecontour_Nfine": 60}, {"N_norm_prefactor": 2.0},
+    {"follow_perpendicular_rtol": 1.0e-6}, {"finecontour_overdamping_factor": 0.6},
+    {"geometry_rtol": 1.0e-8}, {"sfunc_checktol": 1.0e-10}, {"refine_timeout": 30.0},
+    {"poloidal_spacing_delta_psi": 0.005}, {"finecontour_extend_prefactor": 3.0},
+]
+
+
+def swarm(rng, options):
+    if rng.random() < 0.6:
+        for frag in rng.sample(SWARM, rng.choice((1, 2, 3))):
+            options.update(frag)
+    return options
+
+
 def history_ops(rng, key):
     """0..5 earlier operations in the same interpreter."""
     ops = []
@@ -96,11 +116,12 @@ def history_ops(rng, key):
                         "grid_par"))
         if k == "grid":
             sc = probe_scenarios(rng, 5)[rng.randrange(5)]
+            swarm(rng, sc["options"])
             ops.append({"op": "grid", "scenario": sc,
                         "upto": rng.choice(("construct", "geometry", "write"))})
         elif k == "grid_par":
-            sc = {"family": "circ", "options": workloads.circ_options(rng), "np": 2,
-                  "sched_seed": rng.randrange(10**6)}
+            sc = {"family": "circ", "options": swarm(rng, workloads.circ_options(rng)),
+                  "np": 2, "sched_seed": rng.randrange(10**6)}
             ops.append({"op": "grid", "scenario": sc, "upto": "write"})
         elif k == "grid_fail":
             from .scenarios import fault_plan
